@@ -86,3 +86,21 @@ From EE Require Import ImplConsts.
 Theorem C01_depth_constant_is_source : recognised = true /\ MAX_DEPTH = impl_max_depth.
 Proof. split; reflexivity. Qed.
 Print Assumptions C01_depth_constant_is_source.
+
+(* TRANSLATED FROM THE SOURCE ON EVERY RUN: the parser's recursion is counted (a call of enter()) once in parse_primary, once in
+   parse_op and once in parse_op_inner - for the branches of a conditional - and nowhere else in parser.rs (the iterations of the
+   operator loop do not recurse: fix 9cbfd9a). The model guards its depth at exactly those three places: C01_depth_guard for the
+   first two, and here for the conditional. *)
+From EE Require Import ParserSteps.
+Theorem C01_recursion_counted_where_the_source_counts :
+  recognised = true /\ impl_enter_sites = (1, 1, 1, 3) /\
+  (forall tbl f d lhs rest, MAX_DEPTH <= d -> parse_op_loop tbl TmEof (S f) d 0%Z lhs (TOp s_qmark :: rest) = Err).
+Proof.
+  split; [reflexivity|]. split; [reflexivity|].
+  intros tbl f d lhs rest H. rewrite parse_op_loop_eq. cbn zeta.
+  assert (E: is_not s_qmark = false) by reflexivity. rewrite E. cbn [bind andb negb].
+  destruct (cur_prec tbl (TOp s_qmark :: rest)) as [l r].
+  assert (E2: str_eqb s_qmark s_qmark = true) by reflexivity. rewrite E2. cbn [Z.ltb Z.compare].
+  rewrite advance_eof. cbn [bind]. destruct (N.ltb_spec MAX_DEPTH (d + 1)); [reflexivity | lia].
+Qed.
+Print Assumptions C01_recursion_counted_where_the_source_counts.
